@@ -222,8 +222,8 @@ def replay_path(args):
     return out
 
 
-def check(prop, tier, seed):
-    v = Verdict(prop, tier, seed)
+def check(prop, tier, seed, into=None):
+    v = into or Verdict(prop, tier, seed)
     tot = {"states": 0, "transitions": 0, "paths": 0}
     for cfg in TIERS[tier]:
         res = run_tlc("Decorator", cfg_text(*cfg), outfiles=["edges.ndjson"], timeout=3000)
